@@ -21,6 +21,41 @@ fn main() {
         }
         return;
     }
+    if args.len() >= 2 && args[1] == "harvest-measure" {
+        // authoring aid: allocation points and wall time of every harvested group (never-collect)
+        for (i, (name, parts)) in boa_sim::kernels::harvest().iter().enumerate() {
+            let t0 = std::time::Instant::now();
+            let inst = boa_sim::js::install_gc(&boa_sim::js::GcPolicy::Never);
+            {
+                let (mut ctx, _host) = boa_sim::js::new_default_context();
+                let mut rl = boa_engine::vm::RuntimeLimits::default();
+                rl.set_loop_iteration_limit(200_000);
+                ctx.set_runtime_limits(rl);
+                for p in parts {
+                    let _ = ctx.eval(boa_engine::Source::from_bytes(p.as_str()));
+                    let _ = ctx.run_jobs();
+                }
+            }
+            boa_sim::js::uninstall_gc();
+            boa_gc::verif::collect_now();
+            println!("{i}\t{}\t{}\t{name}", inst.points.get(), t0.elapsed().as_millis());
+        }
+        return;
+    }
+    if args.len() >= 2 && args[1] == "jsgc" {
+        // debugging aid: evaluate files in one context, collecting between them
+        let (mut ctx, host) = boa_sim::js::new_default_context();
+        for f in &args[2..] {
+            let src = std::fs::read_to_string(f).expect("read");
+            let r = ctx.eval(boa_engine::Source::from_bytes(src.as_str()));
+            println!("{f}: {}", boa_sim::js::completion(&r, &mut ctx));
+            println!("  jobs: {:?}", ctx.run_jobs().is_ok());
+            boa_gc::verif::collect_now();
+            println!("  jobs after gc: {:?}", ctx.run_jobs().is_ok());
+            println!("  trace {:?} weak {:?}", host.trace.take(), host.weak.take());
+        }
+        return;
+    }
     if args.len() >= 2 && args[1] == "list" {
         for p in boa_sim::props() {
             println!("{}", p.id);
